@@ -25,7 +25,8 @@ RULE = ("the malformed stream: every documented class of invalid input instantia
         "with valid requests of the same shape; deterministic family (seed independent, oracle on every case): rxx/ryy/rzz/crx/cry/crz/cp whose angle still has a "
         "free parameter in any form (bare Parameter, vector element, 2*t, t/2, -t, t+c, a+b, partially bound a+b, sin(t), t*t) handed to the basis / placeholder "
         "constructors and, inside random circuits at a random position across two partitions, to partition_circuit_qubits, partition_problem, cut_gates, find_cuts, "
-        "next to the same requests with the expression fully bound; compared: error enum (ValueError / accepted) and, on refusal, deep snapshots of the arguments")
+        "next to the same requests with the expression fully bound; deterministic family (oracle only): dictionary-form reconstruction over 2-3 partitions "
+        "with different numbers of commuting groups, results dictionary in every key order, counts correct / off in one partition / interchanged between two; compared: error enum (ValueError / accepted) and, on refusal, deep snapshots of the arguments")
 ASSUMPTIONS = ["'without modifying the arguments' is a runtime statement: checked by deep snapshots before/after every refused call",
                "partition / search / decomposition refusals reuse the models of C10, C07, C02, C13, C17 (delegated cases)"]
 
@@ -133,7 +134,46 @@ def _family_unbound_angles():
             yield circuit_case(PARAM_GATES[(2 * i + j) % 7], BOUND_EXPRS[(i + j) % 3], entry, True)
 
 
+def _family_result_counts():
+    """Deterministic family (seed independent): the dictionary form of reconstruct_expectation_values over two or three partitions whose
+    observables have DIFFERENT numbers of qubit-wise commuting groups (g distinct letters on one and the same qubit, identity elsewhere:
+    exactly g groups), so every partition needs its own number of results, len(coefficients) * g.  The results dictionary is inserted in
+    every key order relative to the observables dictionary (dictionaries are matched by key), and the counts are correct, off by one /
+    doubled in one partition, or interchanged between two partitions."""
+    import itertools
+    import random
+    r = random.Random(180914)
+    keysets = [["A", "B"], [3, 1], ["A", "B", "C"], [(0, 1), "x", 7]]
+    t = 0
+    for ks in keysets:
+        for groups in itertools.islice(itertools.permutations([1, 2, 3], len(ks)), 0, None, 2):
+            t += 1
+            ncoeff = 1 + t % 3
+            parts = []
+            for key, g in zip(ks, groups):
+                width = r.randint(1, 3)
+                parts.append({"key": key, "width": width, "pos": r.randrange(width), "letters": r.sample("XYZ", g), "nobs": 3})
+            need = {i: ncoeff * g for i, g in enumerate(groups)}
+            orders = list(itertools.permutations(range(len(ks))))
+            if len(ks) == 3:
+                orders = [orders[0], orders[-1], orders[3 if t % 2 else 4], orders[1 if t % 2 else 2]]   # same, reversed, a rotation, a swap
+            variants = [("correct", dict(need))]
+            for i in need:
+                for delta in (-1, 1, need[i]):
+                    if (i + delta + t) % 2 == 0:      # half of the single miscounts per request shape
+                        variants.append(("miscount", {**need, i: need[i] + delta}))
+            for i, j in itertools.combinations(range(len(ks)), 2):
+                if need[i] != need[j]:
+                    variants.append(("interchanged", {**need, i: need[j], j: need[i]}))
+            for how, counts in variants:
+                for order in (orders if how != "miscount" else orders[t % len(orders)::max(1, len(orders) - 1)][:2]):
+                    yield ("validate", {"what": "reconstruct_counts", "parts": parts, "ncoeff": ncoeff, "how": how,
+                                        "res_order": list(order), "counts": [counts[i] for i in order],
+                                        "oracle_only": True, "always_oracle": True})
+
+
 def cases(rng, tier):
+    yield from _family_result_counts()
     yield from _family_unbound_angles()
     N = 40 if tier == "quick" else 400
     # partition keys of results and observables: strict superset, strict subset, renamed, equal (in any order)
@@ -272,6 +312,10 @@ def model_line(kind, payload):
     if kind == "recon":
         return c06.model_line("reconstruct", payload)
     w = payload["what"]
+    if payload.get("oracle_only"):
+        # the driver has no line for result counts per partition: a trivial line keeps the protocol in step, nothing is compared, the
+        # oracle (counts known by construction) decides
+        return {"op": "c18.half", "basis_qubits": 1, "qubit_id": 0}
     if w == "generate_args":
         n = payload["n"]
         return {"op": "c18.generate_args", "circuits": payload["circuits"], "observables": payload["observables"],
@@ -386,6 +430,38 @@ def run_real(kind, payload):
             # only the argument checks at the top of the function are modelled here; a later count mismatch is C06's
             if "number of subexperiments" in str(ex):
                 return {"ok": "accepted"}
+            raise
+        return {"ok": "accepted"}
+    if w == "reconstruct_counts":
+        from qiskit.quantum_info import PauliList
+        from qiskit.primitives import SamplerResult
+        from qiskit.result import QuasiDistribution
+        from qiskit_addon_cutting import reconstruct_expectation_values
+        from qiskit_addon_cutting.qpd import WeightType
+
+        def key(k):
+            return tuple(k) if isinstance(k, list) else k
+        parts = payload["parts"]
+        ob = {}
+        for pt in parts:
+            labs = []
+            for m in range(pt["nobs"]):
+                s_ = ["I"] * pt["width"]
+                s_[pt["pos"]] = pt["letters"][m % len(pt["letters"])]
+                labs.append("".join(s_))
+            ob[key(pt["key"])] = PauliList(labs)
+        rs = {key(parts[i]["key"]): SamplerResult([QuasiDistribution({0: 1.0}) for _ in range(c)], [{} for _ in range(c)])
+              for i, c in zip(payload["res_order"], payload["counts"])}
+        coeffs = [(0.5 + 0.25 * i, WeightType.EXACT) for i in range(payload["ncoeff"])]
+
+        def snap():
+            return ([(k, v.to_labels()) for k, v in ob.items()], [(k, [dict(q) for q in v.quasi_dists]) for k, v in rs.items()], repr(coeffs))
+        before = snap()
+        try:
+            reconstruct_expectation_values(rs, coeffs, ob)
+        except ValueError:
+            if snap() != before:
+                return {"error": "ValueError", "mutated": True}
             raise
         return {"ok": "accepted"}
     if w == "basis_id":
@@ -514,6 +590,8 @@ def model_canon(kind, payload, out):
 def compare(kind, payload, real, model):
     if "mutated" in real:
         return "arguments were modified by a refused call"
+    if payload.get("oracle_only"):
+        return None
     if kind == "pp":
         return c10.compare("partition_problem", payload, real, model)
     if kind == "find":
@@ -574,6 +652,9 @@ def _expected_invalid(kind, payload):
             return True
         rows = payload["phases"][:1] if ob == "single" else payload["phases"]
         return any(p != 0 for row in rows for p in row) or None
+    if w == "reconstruct_counts":
+        # partition i has len(letters) qubit-wise commuting groups by construction
+        return any(c != payload["ncoeff"] * len(payload["parts"][i]["letters"]) for i, c in zip(payload["res_order"], payload["counts"]))
     if w == "basis_id":
         i = payload["id"]
         return i is not None and not (0 <= i < payload["nmaps"])
@@ -598,6 +679,18 @@ def oracle(kind, payload):
     real = call_real(lambda p: run_real(kind, p), payload, timeout=300)
     if "mutated" in real:
         return "arguments were modified by a refused call"
+    if kind == "validate" and payload.get("what") == "reconstruct_counts":
+        parts = payload["parts"]
+        need = {repr(pt["key"]): payload["ncoeff"] * len(pt["letters"]) for pt in parts}
+        given = {repr(parts[i]["key"]): c for i, c in zip(payload["res_order"], payload["counts"])}
+        ctx = (f"reconstruct_expectation_values, dictionary form, {payload['ncoeff']} coefficient(s), observables keyed {list(need)} with "
+               f"{[len(pt['letters']) for pt in parts]} commuting group(s): results needed per partition {need}, given (in the insertion "
+               f"order of the results dictionary) {given}")
+        if exp and real.get("error") != "ValueError":
+            return f"{ctx}: the mismatched result counts ({payload['how']}) were not refused with ValueError: {str(real)[:160]}"
+        if not exp and "error" in real:
+            return f"{ctx}: a request with the right number of results in every partition raised {real['error']}"
+        return None
     if exp:
         if real.get("error") == "ValueError":
             return None
